@@ -17,7 +17,14 @@ var vals = []string{"", "00", "7631", "7632", "76317632", "ff"}
 var ttls = []int{0, 0, 1, 2, 3, 3600, 3601}
 var advances = []int64{1, 999, 1000, 1001, 1999, 2000, 3000, 3599999, 3600000, 3600001, 3601000, 7200000}
 
-func genOp(r *kit.Rng, pk string) *Op {
+// Alphabets lets other properties (C07) reuse the history generator over their own key sets
+type Alphabets struct{ PKs, CCs, Bounds []string }
+
+var Default = Alphabets{PKs: pks, CCs: ccs, Bounds: bounds}
+
+func genOp(r *kit.Rng, pk string, al Alphabets) *Op {
+	pks, ccs, bounds := al.PKs, al.CCs, al.Bounds
+	_ = pks
 	c := kit.Pick(r, ccs)
 	o := &Op{PK: pk, CC: c}
 	if c == "" && r.Bool() {
@@ -67,7 +74,11 @@ func genOp(r *kit.Rng, pk string) *Op {
 	return o
 }
 
-func genHistory(r *kit.Rng, backend string) *History {
+func genHistory(r *kit.Rng, backend string) *History { return GenHistory(r, backend, Default) }
+
+// GenHistory generates one history over the given alphabets
+func GenHistory(r *kit.Rng, backend string, al Alphabets) *History {
+	pks := al.PKs
 	h := &History{Backend: backend}
 	n := 5 + r.Intn(40)
 	// most ops hit one or two partitions so that they interact
@@ -77,7 +88,7 @@ func genHistory(r *kit.Rng, backend string) *History {
 		if r.Chance(1, 8) {
 			pk = kit.Pick(r, pks)
 		}
-		h.Ops = append(h.Ops, genOp(r, pk))
+		h.Ops = append(h.Ops, genOp(r, pk, al))
 	}
 	// final sweep: everything observable
 	for _, pk := range hot {
